@@ -20,6 +20,12 @@ import (
 // the tests skip.
 
 func TestMain(m *testing.M) {
+	if gp := os.Getenv("LIVESIM_GOPATH"); gp != "" {
+		// the scratch GOPATH with the files the //line directives of
+		// zz_exotic_test.go point into (see stages/C20.sh); inherited by every
+		// process that executes a plan
+		os.Setenv("GOPATH", gp)
+	}
 	if os.Getenv("LIVESIM_MODE") == "orchestrate" {
 		os.Exit(orchestrate())
 	}
